@@ -409,7 +409,7 @@ Definition gf_commands_take_effect_stmt : Prop :=
      respond_iso_request r q addressed 126998 i = send_config_info r i /\
      (forall r1 ev ok, rsend r {| m_pri := 6; m_pgn := 126998; m_src := dev_src r i; m_dst := 255; m_data := c_confinfo (r_cfg r); m_tp := false |} i = (r1, ev, ok) ->
         snd (send_config_info r i) = ev)).
-(* an ASCII description is readable in the payload as [length+2; 1; text]                                   (* not yet proved *) *)
+(* an ASCII description is readable in the payload as [length+2; 1; text] *)
 Definition conf_payload_ascii_stmt : Prop :=
   forall s1 s2 s3, Forall (fun b => 0 < b < 128) (s1 ++ s2 ++ s3) -> (length s1 <= 70)%nat -> (length s2 <= 70)%nat -> (length s3 <= 70)%nat ->
      conf_payload s1 s2 s3 = [len s1 + 2; 1] ++ s1 ++ [len s2 + 2; 1] ++ s2 ++ [len s3 + 2; 1] ++ s3.
